@@ -30,6 +30,8 @@ RECOMPUTED = {"e0": "recomputed from u0 (not written during an attempt) by both 
               "e_th0": "thermal strain at the beginning of the step, recomputed from the evolutions at time t",
               "esv0": "external state variables at the beginning of the step, recomputed from the evolutions at time t",
               "u10": "previous iterate of the unknowns (acceleration algorithms): reset by revert()"}
+FRESH_ALLOCATORS = {"mtest::StructureCurrentState::getModelCurrentState": "creates the record of an auxiliary model on first use "
+                    "(make_shared<CurrentState> inserted in model_states, then allocateCurrentState on the new object); no existing record is written"}
 STATE_CLASSES = ("mtest::CurrentState", "mtest::StudyCurrentState", "mtest::StructureCurrentState")
 
 
@@ -98,7 +100,7 @@ def direct_writes(f):
 def run(tier):
     rep = Report("C50", tier, "other", RULE)
     units = units_under("mtest/src")
-    d = cfgdump(units, os.path.join(OUT, "C50", "dump"), funcs=r"^mtest::", calls=True, root=os.path.join(REPO, "mtest"))
+    d = cfgdump(units, os.path.join(OUT, "C50", "dump"), funcs=r"^mtest::", records=r"^mtest::", root=os.path.join(REPO, "mtest"))
     funcs = load_functions(d)
     rep.count("units analysed", len(units))
     rep.count("functions analysed", len(funcs))
@@ -193,15 +195,23 @@ def run(tier):
             raise AnalysisBroken("update/revert of %s not found" % cls)
         cu = [(a, b) for a, b, c in copies(up[cls][0])]
         cr = [(a, b) for a, b, c in copies(rv[cls][0])]
+        groups = {}
         for dst, src in cu:
-            if not src.endswith("1"):
-                continue        # shifts of older history (X_1 = X0)
+            if src.endswith("1") and not src.endswith("_1"):
+                groups.setdefault(src, []).append(dst)      # X0 = X1 (shifts of older history X_1 = X0 are not commits of the attempt)
+        for src, dsts in sorted(groups.items()):
             rep.count("committed fields")
-            if (src, dst) in cr:
-                rep.ok("%s: update commits %s = %s and revert restores %s = %s" % (cls, dst, src, src, dst))
+            back = [d_ for d_ in dsts if (src, d_) in cr]
+            if back:
+                rep.ok("%s: update commits %s = %s and revert restores %s = %s" % (cls, "/".join(dsts), src, src, back[0]))
             else:
-                rep.fail("SYMMETRY@%s#%s" % (cls, src), "%s: update() commits %s = %s but revert() does not restore %s = %s: a rejected "
-                         "attempt leaves its value of %s behind" % (cls, dst, src, src, dst, src))
+                rep.fail("SYMMETRY@%s#%s" % (cls, src), "%s: update() commits %s = %s but revert() does not restore %s from %s: a rejected "
+                         "attempt leaves its value of %s behind" % (cls, "/".join(dsts), src, src, " or ".join(dsts), src))
+            # every committed copy that an attempt may have changed must be reset as well
+            for d_ in dsts:
+                if d_ in RECOMPUTED and not any(a_ == d_ for a_, _b in cr):
+                    rep.fail("SYMMETRY@%s#%s" % (cls, d_), "%s: %s is written during an attempt (%s) but revert() does not reset it"
+                             % (cls, d_, RECOMPUTED[d_]))
     for q in ("mtest::StructureCurrentState::update", "mtest::StructureCurrentState::revert"):
         g = byq.get(q, [None])[0]
         if g is None:
@@ -215,61 +225,64 @@ def run(tier):
         else:
             rep.fail("SYMMETRY@%s" % q, "%s does not apply %s to every integration-point state" % (q, want))
     # ------------------------------------------------------------ R3
-    edges = {}       # qname -> set of (callee qname, virtual?, nargs)
-    sig = {}         # unqualified name -> set of (qname, nparams)
-    for g in funcs:
-        top = g
-        while top.parent is not None:
-            par = [h for h in funcs if h.unit == top.unit and h.id == top.parent]
-            if not par:
-                break
-            top = par[0]
-        e_ = edges.setdefault(top.qname, set())
-        for n in g.stmts.values():
-            if n["k"] in ("CallExpr", "CXXMemberCallExpr", "CXXConstructExpr", "CXXOperatorCallExpr") and n.get("callee"):
-                e_.add((n["callee"], bool(n.get("virtual")), len(n.get("args", []))))
-        if g.parent is None:
-            sig.setdefault(g.qname.rsplit("::", 1)[-1], set()).add((g.qname, len(g.params)))
-    reach, st = set(), ["mtest::iterate", "mtest::iterate2"]
-    while st:
-        q = st.pop()
-        if q in reach:
-            continue
-        reach.add(q)
-        for c, virt, na in edges.get(q, ()):
-            if c in edges and c not in reach:
-                st.append(c)
-            if virt:
-                # dynamic dispatch: every mtest method of that name and arity may be the target
-                for alt, np_ in sig.get(c.rsplit("::", 1)[-1], ()):
-                    if alt not in reach and np_ == na:
-                        st.append(alt)
-    reach -= {"mtest::StudyCurrentState::update", "mtest::StudyCurrentState::revert", "mtest::update", "mtest::revert",
-              "mtest::StructureCurrentState::update", "mtest::StructureCurrentState::revert"}
-    rep.count("functions reachable from an attempt", len(reach))
-    nw = 0
-    for g in funcs:
-        top = g
-        if g.qname not in reach and not (g.parent is not None):
-            continue
-        if g.parent is not None:
-            # closures belong to their enclosing function
-            par = [h for h in funcs if h.unit == g.unit and h.id == g.parent]
-            if not par or par[0].qname not in reach:
-                continue
-        for field, cls, s in direct_writes(g):
-            nw += 1
-            if BEGIN_FIELDS.match(field) and field not in RECOMPUTED:
-                rep.fail("BEGIN-OF-STEP-WRITE@%s#%s" % (g.qname, field), "%s: %s, reachable from an attempt, writes the beginning-of-step "
-                         "field %s of %s: a rejected attempt changes the state it restarts from" % (rel(g.short_loc(s)), g.qname, field, cls))
-    rep.count("direct writes to state fields during an attempt", nw)
+    from effects import Effects
+    bases = {}
+    for u_, dd in d.items():
+        for r_ in dd.get("records", []):
+            bases.setdefault(r_["qname"], [re.sub(r"^(class|struct) ", "", b_) for b_ in r_.get("bases", [])])
+    rep.count("classes with their bases", len(bases))
+    # lazily created records: confirmed by reading, and re-checked structurally below
+    for q_, why in FRESH_ALLOCATORS.items():
+        gs = byq.get(q_, [])
+        if not gs:
+            raise AnalysisBroken("fresh allocator %s not found" % q_)
+        g_ = gs[0]
+        mk = [n for n in g_.stmts.values() if n["k"] == "CallExpr" and (n.get("callee") or "").startswith("std::make_shared") and "mtest::CurrentState" in (n.get("t") or "")]
+        wr = [n.get("callee") for n in g_.stmts.values() if n["k"] in ("CXXMemberCallExpr", "CallExpr") and (n.get("callee") or "").startswith("mtest::")
+              and not (n.get("callee") or "").endswith("::allocateCurrentState")]
+        if not mk or wr:
+            rep.fail("FRESH-ALLOCATOR@%s" % q_, "%s no longer has the shape of a lazy allocator (make_shared<CurrentState> + allocateCurrentState only): %s"
+                     % (q_, wr))
+        else:
+            rep.ok("%s only creates and initialises a new record: %s" % (q_, why))
+    eff = Effects(funcs, STATE_CLASSES, bases=bases, fresh_allocators=FRESH_ALLOCATORS,
+                  scratch_types=("BehaviourWorkSpace", "SolverWorkSpace"))
+    try:
+        W = eff.compute()
+    except RuntimeError as e:
+        raise AnalysisBroken(str(e))
+    rep.count("functions with a write summary on a state record", sum(1 for w in W.values() if w))
+    rep.count("summary entries (root, field)", sum(len(w) for w in W.values()))
+    rep.extra["writes with an unresolved base object (not attributed)"] = eff.unresolved
+    nroots = 0
+    for q in ("mtest::iterate", "mtest::iterate2"):
+        for g in byq.get(q, []):
+            state_params = [i for i, p_ in enumerate(g.params) if "StudyCurrentState" in p_["type"] and "const" not in p_["type"].split("StudyCurrentState")[0]]
+            if not state_params:
+                raise AnalysisBroken("%s has no mutable StudyCurrentState parameter" % q)
+            nroots += 1
+            w = W.get((g.unit, g.id), {})
+            seen_f = set()
+            for (r, field), wit in sorted(w.items(), key=lambda kv: (kv[0][1], str(kv[0][0]))):
+                if r[0] != "param" or r[1] not in state_params:
+                    continue
+                rep.count("state fields an attempt may leave changed")
+                seen_f.add(field)
+                if BEGIN_FIELDS.match(field) and field not in RECOMPUTED:
+                    rep.fail("BEGIN-OF-STEP-WRITE@%s#%s" % (q, field), "%s may leave the beginning-of-step field %s changed when it returns: a rejected "
+                             "attempt changes the state the next attempt restarts from [%s]" % (q, field, rel(wit)))
+            rep.extra["fields written by " + q] = sorted(seen_f)
+    if nroots == 0:
+        raise AnalysisBroken("mtest::iterate / iterate2 not found")
     if not any(v["key"].startswith("BEGIN-OF-STEP-WRITE") for v in rep.violations):
-        rep.ok("no function reachable from an attempt writes a beginning-of-step field directly (%d direct writes inspected; exceptions: %s)"
-               % (nw, ", ".join(sorted(RECOMPUTED))))
+        rep.ok("an attempt (iterate / iterate2 and everything they call) leaves no beginning-of-step field of the study state changed "
+               "(exceptions recomputed before each attempt: %s)" % ", ".join(sorted(RECOMPUTED)))
     rep.floor("committed fields", 5)
-    rep.floor("functions reachable from an attempt", 50)
-    rep.floor("direct writes to state fields during an attempt", 10)
-    rep.assumptions += ["writes through references that escape the direct idioms (assignment, element assignment, std::copy/fill "
-                        "destination, resize/clear/swap) are not tracked", "virtual calls are resolved by method name within mtest::",
+    rep.floor("state fields an attempt may leave changed", 6)
+    rep.floor("functions with a write summary on a state record", 20)
+    rep.assumptions += ["writes whose base object cannot be resolved to a parameter, *this or a local (count in the evidence) are not attributed",
+                        "virtual calls are resolved by method name within mtest::; behaviours loaded from shared libraries receive views of "
+                        "the state built by the wrappers and are outside the analysed program",
+                        "an exception leaving an attempt ends the run (MTest::execute catches at top level): exceptional exits are not restart points",
                         "counters (iterations, subSteps) are not part of the state compared by the property"]
     return rep
